@@ -90,15 +90,14 @@ def run_faults(f, res):
 
 def recipes(labels):
     D = A.menu(labels, False)
-    return [r for r in D if not (r["k"] == "comb" and r.get("de") == 1.0 and r.get("cat") is None)]
+    return [r for r in D if not (r["k"] == "comb" and r.get("de") == 1.0 and r.get("cat") is None and r.get("b") == 1.0)]
 
 
 def judge(spec, recipe, kind, backend, obs, opt):
     if not obs["ok"]:
         return f"{kind} alignment failed under solver configuration {backend}: {obs['exc']}"
-    exp = A.expected_solver(backend)
-    if obs["solvers"] != exp:
-        return None  # configuration not exercised as intended: counted, see finalize()
+    # the result is judged whatever solver the library ended up calling (which ones were called is only used to
+    # establish that the fall-back path really ran: counted, see finalize())
     probs = check_partition(obs["nts"], spec_by_annotator(spec), cover=(kind == "soft"))
     if probs:
         return f"{kind} alignment under {backend} is not a {'cover' if kind == 'soft' else 'partition'}: " + \
@@ -134,7 +133,9 @@ def run(task):
                     for s in obs.get("solvers", []):
                         res["extra"]["solver_" + str(s)] = res["extra"].get("solver_" + str(s), 0) + 1
                     msg = judge(spec, recipe, kind, backend, obs, opt)
-                    if obs["ok"] and obs["solvers"] != A.expected_solver(backend):
+                    if obs["ok"] and (obs["solvers"][:1] != A.expected_solver(backend)[:1] or
+                                      len(obs["solvers"]) != len(A.expected_solver(backend))):
+                        # the first solver tried and the number of attempts tell whether CBC / the fall-back ran
                         res["extra"]["solver_config_mismatch"] = res["extra"].get("solver_config_mismatch", 0) + 1
                         good = False
                     if msg:
